@@ -72,6 +72,8 @@ def rules(model: Model, tier: str) -> List[RuleResult]:
                 O.ok(fc.forward.fq, "%s.forward: the saved backward options are the forward options overridden by bck_options (abstract evaluation of the dictionary statements)" % fc.name)
             else:
                 O.bad(fc.forward, fc.forward.node, "the saved backward options are not the forward options overridden by the caller's bck_options: %s" % verdict)
+    Mx = RuleResult(PROP, "C18-M", "a method given by the caller is never replaced: defaults are chosen only where `method is None` certainly holds", min_instances=2)
+    _no_override(model, Mx)
     K = RuleResult(PROP, "C18-K", "minimize: method kind -> algorithm family truth table (built-in minimizer, built-in root finder, unknown name, callable)", min_instances=4)
     Dm = RuleResult(PROP, "C18-D", "solve / symeig: the backward defaults do not inherit the forward `method` (a forward-only callable is never reused for the adjoint system)", min_instances=2)
     _minimize_kinds(model, K)
@@ -81,7 +83,7 @@ def rules(model: Model, tier: str) -> List[RuleResult]:
     Ua = RuleResult(PROP, "C18-U", "built-in implementations of the functionals whose backward inherits the forward options (quad, solve_ivp, mcquad) tolerate options "
                     "they do not know (`**` catch-all): a custom forward method's private options reach them in the backward pass", min_instances=9)
     _catch_all(model, Ua)
-    return [G, L, C, Rr, A, N, O, K, Dm, Ua]
+    return [G, L, C, Mx, Rr, A, N, O, K, Dm, Ua]
 
 
 def _catch_all(model: Model, U: RuleResult):
@@ -260,6 +262,56 @@ def _backward_defaults(model: Model, Dm: RuleResult):
 
 
 # ------------------------------------------------------------------------------------------------- G
+def _no_override(model: Model, Mx: RuleResult):
+    """In every public function that takes a `method`, a store into `method` whose value does not derive from `method` itself (a default such
+    as "exactsolve") is executed only when `method is None` certainly holds - read off the path conditions, so an if/else, guard clauses or a
+    conditional expression decide alike, and `method is None and small or explicit` (which also replaces a callable or a name the caller
+    passed) does not.  Normalisations (`method = method.lower()`) derive from the caller's value and are free."""
+    from ..model import effective_conditions, cond_atoms
+    n = 0
+    for f in model.all_functions():
+        if f.parent is not None or "method" not in f.all_params() or f.module.relpath.startswith("xitorch/_tests"):
+            continue
+        fdefs = function_defs(f.node)
+
+        def derives(e, defs_, depth, seen):
+            for x in ast.walk(e):
+                if isinstance(x, ast.Name):
+                    if x.id == "method":
+                        return True
+                    if depth < 5 and x.id not in seen and x.id in defs_:
+                        seen.add(x.id)
+                        if any(d is not None and derives(d, defs_, depth + 1, seen) for d in defs_[x.id]):
+                            return True
+            return False
+        for st in own_nodes(f.node):
+            if not (isinstance(st, ast.Assign) and any(isinstance(t, ast.Name) and t.id == "method" for t in st.targets)):
+                continue
+            val = st.value
+            arms = [(val, [])]
+            if isinstance(val, ast.IfExp):
+                tt = ast.unparse(val.test)
+                arms = [(val.body, [(tt, True)]), (val.orelse, [(tt, False)])]
+            for v, extra in arms:
+                if derives(v, fdefs, 0, set()):
+                    continue                    # derives from the caller's value (directly or through local temporaries)
+                n += 1
+                conds = list(effective_conditions(st))
+                for tt, pol in extra:
+                    from ..model import _positive
+                    t_, fl_ = _positive(ast.parse(tt, mode="eval").body)
+                    conds.append((ast.unparse(t_), pol != fl_))
+                atoms = cond_atoms(conds)
+                what = "%s: `%s` under %s" % (f.qualname, norm_stmt(st, 70), [a for a in atoms if "method" in a[0]] or "no test of method")
+                if ("method is None", True) in atoms:
+                    Mx.ok(f.fq, what)
+                else:
+                    Mx.bad(f, st, "`method` is replaced by a default on a path where the caller may have given one (a callable or a name): the default may only "
+                           "be chosen where `method is None` certainly holds", what=what)
+    if n == 0:
+        Mx.ok("xitorch", "no function replaces its `method` argument by a default")
+
+
 def _routes(model: Model, sites, G: RuleResult):
     for f, c in sites:
         G.ok(f.fq, "get_method(%s) in %s" % (", ".join(ast.unparse(a) for a in c.args), f.qualname))
